@@ -152,6 +152,19 @@ def guard_of(body, bb_call, key_roots, rec_sites):
         key_ok = kroot is not None and (kroot in key_roots or strip_ref(kroot) in {strip_ref(k) for k in key_roots})
         desc = dict(block=g, call=ct['callee'], from_param=from_param, key=str(kroot), polarity_ok=polarity_ok,
                     key_ok=key_ok, recv=str(rroot))
+        if from_param and polarity_ok and key_ok and is_con and not is_ins:
+            # a membership test alone records nothing: the key must also be inserted into that set - between the test and the call (dominating
+            # the call), or by the callee itself on its own handle parameter (`if !visited.contains(f) { walk(f) }` with `walk` never inserting
+            # re-walks f once per path)
+            recorded = False
+            for b2, t2 in body.calls():
+                if is_set_call(t2, GUARD_INSERT) and b2 in dom and b2 != g and op_place(t2['args'][0]) and len(t2['args']) > 1 and op_place(t2['args'][1]):
+                    if canon(body, op_place(t2['args'][0])) == rroot and strip_ref(canon(body, op_place(t2['args'][1]))) == strip_ref(kroot):
+                        recorded = True
+            desc['recorded'] = recorded
+            if not recorded:
+                best = desc
+                continue
         if from_param and polarity_ok and key_ok:
             return True, desc
         best = desc
